@@ -399,6 +399,52 @@ def gen_pack(o):
         """,
         ["impl From<u32> for Rgb<S, u8>", "impl From<u32> for Rgba<S, u8>", "impl From<Rgb<S, u8>> for u32", "impl From<Rgba<S, u8>> for u32"],
         "all 2^32 integers and all 2^32 colours")
+    o.harness(
+        "c12_pack_integer_widths_first_slot_most_significant",
+        "for a channel order defined on byte arrays (user-defined through the public ComponentOrder trait; slot k = channel k), the "
+        "integer form of EVERY width (u8, u16, u32, u64, u128) puts slot 0 into the most significant byte, slot k into byte k from the "
+        "top - the layout documented for the u32 orders (0xRRGGBBAA for Rgba) - and unpack reads the same positions back, for every "
+        "array and every integer",
+        """
+        let a1: [u8; 1] = kani::any();
+        let a2: [u8; 2] = kani::any();
+        let a4: [u8; 4] = kani::any();
+        let a8: [u8; 8] = kani::any();
+        let a16: [u8; 16] = kani::any();
+        kani::cover!(true);
+        use palette::cast::ComponentOrder as CO;
+        let w1 = <ByteOrderProbe as CO<[u8; 1], u8>>::pack(a1);
+        assert!(w1 == a1[0]);
+        let w2 = <ByteOrderProbe as CO<[u8; 2], u16>>::pack(a2);
+        assert!(w2 == ((a2[0] as u16) << 8) | a2[1] as u16);
+        let w4 = <ByteOrderProbe as CO<[u8; 4], u32>>::pack(a4);
+        assert!(w4 == ((a4[0] as u32) << 24) | ((a4[1] as u32) << 16) | ((a4[2] as u32) << 8) | a4[3] as u32);
+        let w8 = <ByteOrderProbe as CO<[u8; 8], u64>>::pack(a8);
+        let mut e8 = 0u64;
+        let mut k = 0;
+        while k < 8 { e8 = (e8 << 8) | a8[k] as u64; k += 1; }
+        assert!(w8 == e8);
+        let w16 = <ByteOrderProbe as CO<[u8; 16], u128>>::pack(a16);
+        let mut e16 = 0u128;
+        let mut k = 0;
+        while k < 16 { e16 = (e16 << 8) | a16[k] as u128; k += 1; }
+        assert!(w16 == e16);
+        let b1 = <ByteOrderProbe as CO<[u8; 1], u8>>::unpack(w1);
+        let b2 = <ByteOrderProbe as CO<[u8; 2], u16>>::unpack(w2);
+        let b4 = <ByteOrderProbe as CO<[u8; 4], u32>>::unpack(w4);
+        let b8 = <ByteOrderProbe as CO<[u8; 8], u64>>::unpack(w8);
+        let b16 = <ByteOrderProbe as CO<[u8; 16], u128>>::unpack(w16);
+        assert!(b1[0] == a1[0] && b2[0] == a2[0] && b2[1] == a2[1]);
+        let mut k = 0;
+        while k < 4 { assert!(b4[k] == a4[k]); k += 1; }
+        let mut k = 0;
+        while k < 8 { assert!(b8[k] == a8[k]); k += 1; }
+        let mut k = 0;
+        while k < 16 { assert!(b16[k] == a16[k]); k += 1; }
+        """,
+        ["impl ComponentOrder<C, u8> for T", "impl ComponentOrder<C, u16> for T", "impl ComponentOrder<C, u32> for T",
+         "impl ComponentOrder<C, u64> for T", "impl ComponentOrder<C, u128> for T (cast/packed.rs)"],
+        "all byte arrays of 1, 2, 4, 8 and 16 bytes", unwind=18)
     for O, comps in LORDERS.items():
         shift = {c: 8 * (1 - i) for i, c in enumerate(comps)}
         word = " | ".join(f"(({c} as u16) << {shift[c]})" for c in comps)
